@@ -71,9 +71,35 @@ func callsTo(fn *ssa.Function, name string) []*callSite {
 	for _, c := range callsOf(fn) {
 		if c.calleeName() == name {
 			l = append(l, c)
+		} else if isNewHelper(c.Static) && forwardsTo(c.Static, name) {
+			// a helper the audited tree does not have that only forwards its parameters, in
+			// order, to the function looked for: the call of the helper is the call
+			l = append(l, c)
 		}
 	}
 	return l
+}
+
+// forwardsTo: fn is `func h(a, b, c) T { return name(a, b, c, <constants>) }`.
+func forwardsTo(fn *ssa.Function, name string) bool {
+	inner := wrapperInner(fn)
+	if inner == nil || inner.Common().StaticCallee() == nil || shortName(inner.Common().StaticCallee()) != name {
+		return false
+	}
+	args := inner.Common().Args
+	if len(args) < len(fn.Params) {
+		return false
+	}
+	for i, a := range args {
+		if i < len(fn.Params) {
+			if a != ssa.Value(fn.Params[i]) {
+				return false
+			}
+		} else if _, isC := a.(*ssa.Const); !isC {
+			return false
+		}
+	}
+	return true
 }
 
 func instrIndex(in ssa.Instruction) int {
